@@ -69,15 +69,15 @@ class Observer(object):
         o_mark = Portfolio.update_market_value_of_asset
         obs = self
 
-        def transact_asset(pf, txn):
-            r = o_txn(pf, txn)
+        def transact_asset(pf, txn, *args, **kwargs):
+            r = o_txn(pf, txn, *args, **kwargs)
             obs.fills.append(dict(pid=pf.portfolio_id, oid=txn.order_id, asset=txn.asset,
                                   qty=txn.quantity, px=txn.price, comm=txn.commission, t=txn.dt))
             return r
 
-        def update_market_value_of_asset(pf, asset, current_price, current_dt):
+        def update_market_value_of_asset(pf, asset, current_price, current_dt, *args, **kwargs):
             held = asset in pf.portfolio_to_dict()
-            r = o_mark(pf, asset, current_price, current_dt)
+            r = o_mark(pf, asset, current_price, current_dt, *args, **kwargs)
             if held:
                 obs.marks.append(dict(pid=pf.portfolio_id, asset=asset, px=current_price, t=current_dt))
             return r
